@@ -7,7 +7,7 @@
    vectors have one entry per character, paragraph level <= level <= 126;
    c07_c08_from: with length independence, the same for every encoding, one entry per code unit,
    uniform inside each character. *)
-From BidiVerif Require Import Base ConstsGen TablesGen ModelText ModelResolve ModelLine Spec Obs Judge
+From BidiVerif Require Import Base ConstsGen TablesGen ModelText RefDs ModelResolve ModelLine Spec Obs Judge
      Stmts Stmts2 Stmts3 Stmts4.
 From BidiVerif.Proofs Require Import TotalAssemble.
 
@@ -45,12 +45,12 @@ Qed.
 Example t_constructors_char_example :
   let cps := [97; 8235; 1488; 49; 8236; 8294; 98; 8297; 10; 1488; 40; 97; 41; 65536]%N in
   dir3 None /\ dir3 (Some 1) /\
-  (exists b, bidi_info_new U32 hardcoded_ds cps None = Ok b /\
+  (exists b, bidi_info_new U32 ucd16_ds cps None = Ok b /\
              bi_levels b = [0; 0; 1; 2; 2; 0; 2; 0; 0; 1; 1; 2; 1; 2] /\
              map p_level (bi_paras b) = [0; 1] /\
              length (bi_levels b) = length cps /\ length (bi_classes b) = length cps /\
              levels_bounded (bi_paras b) (bi_levels b) = true) /\
-  (exists p, para_bidi_info_new U32 hardcoded_ds cps (Some 1) = Ok p /\
+  (exists p, para_bidi_info_new U32 ucd16_ds cps (Some 1) = Ok p /\
              pb_levels p = [2; 2; 3; 4; 4; 1; 2; 1; 1; 1; 1; 2; 1; 2] /\ pb_level p = 1 /\
              length (pb_levels p) = length cps /\ length (pb_classes p) = length cps /\
              forallb (fun l => (pb_level p <=? l) && (l <=? 126)) (pb_levels p) = true).
@@ -65,22 +65,22 @@ Qed.
 Example c07_c08_example :
   let t16 := [97; 8235; 1488; 49; 8236; 8294; 98; 8297; 10; 1488; 40; 97; 41; 55296; 56320; 56320]%N in
   let t8 := [97; 8235; 1488; 49; 8236; 8294; 98; 8297; 10; 1488; 40; 97; 41; 65536]%N in
-  valid_text U16 t16 /\ fsi_proviso U16 hardcoded_ds (view_of U16 t16) /\
-  valid_text U8 t8 /\ fsi_proviso U8 hardcoded_ds (view_of U8 t8) /\
+  valid_text U16 t16 /\ fsi_proviso U16 ucd16_ds (view_of U16 t16) /\
+  valid_text U8 t8 /\ fsi_proviso U8 ucd16_ds (view_of U8 t8) /\
   map snd (view_of U16 t16) = [1; 1; 1; 1; 1; 1; 1; 1; 1; 1; 1; 1; 1; 2; 1] /\
   map snd (view_of U8 t8) = [1; 3; 2; 1; 3; 3; 1; 3; 1; 2; 1; 1; 1; 4] /\
-  (exists b, bidi_info_new U16 hardcoded_ds t16 None = Ok b /\
+  (exists b, bidi_info_new U16 ucd16_ds t16 None = Ok b /\
              bi_levels b = [0; 0; 1; 2; 2; 0; 2; 0; 0; 1; 1; 2; 1; 2; 2; 1] /\
              uniform ceq (map snd (view_of U16 t16)) (bi_classes b) = true /\
              uniform Nat.eqb (map snd (view_of U16 t16)) (bi_levels b) = true /\
              levels_bounded (bi_paras b) (bi_levels b) = true) /\
-  (exists b, bidi_info_new U8 hardcoded_ds t8 None = Ok b /\
+  (exists b, bidi_info_new U8 ucd16_ds t8 None = Ok b /\
              bi_levels b = [0; 0; 0; 0; 1; 1; 2; 2; 2; 2; 0; 0; 0; 2; 0; 0; 0; 0; 1; 1; 1; 2; 1; 2; 2; 2; 2] /\
              map (fun q => (p_start q, p_end q, p_level q)) (bi_paras b) = [(0, 18, 0); (18, 27, 1)] /\
              uniform ceq (map snd (view_of U8 t8)) (bi_classes b) = true /\
              uniform Nat.eqb (map snd (view_of U8 t8)) (bi_levels b) = true /\
              levels_bounded (bi_paras b) (bi_levels b) = true) /\
-  (exists p, para_bidi_info_new U8 hardcoded_ds t8 (Some 1) = Ok p /\
+  (exists p, para_bidi_info_new U8 ucd16_ds t8 (Some 1) = Ok p /\
              length (pb_levels p) = 27 /\ pb_level p = 1 /\
              uniform Nat.eqb (map snd (view_of U8 t8)) (pb_levels p) = true /\
              forallb (fun l => (pb_level p <=? l) && (l <=? 126)) (pb_levels p) = true).
